@@ -177,7 +177,22 @@ def _aliases() -> list[str]:
             f"Definition alias_base_server : list N := {cstr(b1)}."]
 
 
+def _range_test(e: ast.expr, where: str) -> tuple[int, int]:
+    """`<int> <= response.status_code < <int>`"""
+    if not (isinstance(e, ast.Compare) and isinstance(e.left, ast.Constant) and isinstance(e.left.value, int)
+            and len(e.ops) == 2 and isinstance(e.ops[0], ast.LtE) and isinstance(e.ops[1], ast.Lt)
+            and ast.unparse(e.comparators[0]) == "response.status_code"
+            and isinstance(e.comparators[1], ast.Constant) and isinstance(e.comparators[1].value, int)):
+        raise TranslatorError(f"{where}: expected `<int> <= response.status_code < <int>`")
+    return e.left.value, e.comparators[1].value
+
+
+def _ranges_table(name: str, ranges: list[tuple[int, int, str]]) -> str:
+    return f"Definition {name} : list (N * N * list N) := [" + "; ".join(f"({lo}, {hi}, {cstr(c)})" for lo, hi, c in ranges) + "]."
+
+
 def _transport() -> list[str]:
+    """if status < lo or status >= hi:  error_class = D; if a <= status < b: error_class = X; elif …; raise error_class(…)"""
     mod = _parse("core/http_transport.py")
     req = _find_func(_find_class(mod, "HttpxTransport"), "request")
     ifs = [s for s in req.body if isinstance(s, ast.If)]
@@ -187,53 +202,126 @@ def _transport() -> list[str]:
 
     def cmp(e: ast.expr, op: type) -> int:
         if not (isinstance(e, ast.Compare) and len(e.ops) == 1 and isinstance(e.ops[0], op)
-                and isinstance(e.left, ast.Attribute) and e.left.attr == "status_code" and isinstance(e.left.value, ast.Name)
-                and e.left.value.id == "response" and isinstance(e.comparators[0], ast.Constant)
+                and ast.unparse(e.left) == "response.status_code" and isinstance(e.comparators[0], ast.Constant)
                 and isinstance(e.comparators[0].value, int)):
             raise TranslatorError("HttpxTransport.request: status test changed shape")
         return e.comparators[0].value
-    if not (isinstance(t, ast.BoolOp) and isinstance(t.op, ast.Or) and len(t.values) == 2):
-        raise TranslatorError("HttpxTransport.request: expected `status < lo or status >= hi`")
+    if not (isinstance(t, ast.BoolOp) and isinstance(t.op, ast.Or) and len(t.values) == 2) or ifs[0].orelse:
+        raise TranslatorError("HttpxTransport.request: expected `if status < lo or status >= hi:` without else")
     lo, hi = cmp(t.values[0], ast.Lt), cmp(t.values[1], ast.GtE)
     b = ifs[0].body
-    if not (len(b) == 1 and isinstance(b[0], ast.Raise) and isinstance(b[0].exc, ast.Call)
-            and isinstance(b[0].exc.func, ast.Name) and not ifs[0].orelse):
-        raise TranslatorError("HttpxTransport.request: if-body is not a single raise <Name>(...)")
-    call = b[0].exc
+    if not (len(b) == 3 and isinstance(b[0], (ast.Assign, ast.AnnAssign)) and isinstance(b[1], ast.If) and isinstance(b[2], ast.Raise)):
+        raise TranslatorError("HttpxTransport.request: expected `error_class = <Base>; if/elif by range; raise error_class(...)`")
+    tgt = b[0].target if isinstance(b[0], ast.AnnAssign) else b[0].targets[0]
+    if not (isinstance(tgt, ast.Name) and isinstance(b[0].value, ast.Name)):
+        raise TranslatorError("HttpxTransport.request: default error class assignment changed")
+    var, default = tgt.id, b[0].value.id
+    ranges: list[tuple[int, int, str]] = []
+    node: ast.stmt | None = b[1]
+    while node is not None:
+        if not isinstance(node, ast.If):
+            raise TranslatorError("HttpxTransport.request: range chain ends with a bare else")
+        r = _range_test(node.test, "HttpxTransport.request")
+        if not (len(node.body) == 1 and isinstance(node.body[0], ast.Assign) and isinstance(node.body[0].targets[0], ast.Name)
+                and node.body[0].targets[0].id == var and isinstance(node.body[0].value, ast.Name)):
+            raise TranslatorError("HttpxTransport.request: range branch is not `error_class = <Name>`")
+        ranges.append((r[0], r[1], node.body[0].value.id))
+        if len(node.orelse) > 1:
+            raise TranslatorError("HttpxTransport.request: range chain changed shape")
+        node = node.orelse[0] if node.orelse else None
+    call = b[2].exc
+    if not (isinstance(call, ast.Call) and isinstance(call.func, ast.Name) and call.func.id == var and not call.args):
+        raise TranslatorError("HttpxTransport.request: does not raise error_class(...)")
     kws = {k.arg: ast.unparse(k.value) for k in call.keywords}
-    if kws.get("status_code") != "response.status_code" or kws.get("response") != "response" or call.args:
+    if kws.get("status_code") != "response.status_code" or kws.get("response") != "response":
         raise TranslatorError("HttpxTransport.request: raise no longer passes status_code=response.status_code, response=response")
     last = req.body[-1]
     if not (isinstance(last, ast.Return) and isinstance(last.value, ast.Name) and last.value.id == "response"):
         raise TranslatorError("HttpxTransport.request: does not end with `return response`")
     return ["(* core/http_transport.py : HttpxTransport.request *)",
             f"Definition transport_lo : N := {lo}.  Definition transport_hi : N := {hi}.",
-            f"Definition transport_raises : list N := {cstr(call.func.id)}."]
+            f"Definition transport_default : list N := {cstr(default)}.",
+            _ranges_table("transport_ranges", ranges)]
 
 
 def _handler() -> list[str]:
     mod = _parse("visit/endpoint/generators/response_handler_generator.py")
-    gen = _find_func(_find_class(mod, "EndpointResponseHandlerGenerator"), "generate_response_handling")
+    cls = _find_class(mod, "EndpointResponseHandlerGenerator")
+    gen = _find_func(cls, "generate_response_handling")
+    # ---- _write_range_aware_raise: for lo, hi, cls in ((…), (…)): import; `if lo <= status < hi:` raise cls(…); raise Base(…)
+    rar = _find_func(cls, "_write_range_aware_raise")
+    body = [s for s in rar.body if not (isinstance(s, ast.Expr) and isinstance(s.value, ast.Constant))]
+    if not (len(body) == 3 and isinstance(body[0], ast.For) and isinstance(body[0].iter, ast.Tuple)):
+        raise TranslatorError("_write_range_aware_raise: expected `for … in (<tuples>)` + import + final raise")
+    ranges = []
+    for el in body[0].iter.elts:
+        if not (isinstance(el, ast.Tuple) and len(el.elts) == 3 and all(isinstance(x, ast.Constant) for x in el.elts)
+                and isinstance(el.elts[0].value, int) and isinstance(el.elts[1].value, int) and isinstance(el.elts[2].value, str)):
+            raise TranslatorError("_write_range_aware_raise: range table entry is not (int, int, str)")
+        ranges.append((el.elts[0].value, el.elts[1].value, el.elts[2].value))
+    loop_src = [ast.unparse(n) for n in ast.walk(body[0]) if isinstance(n, ast.JoinedStr)]
+    names = [t.id for t in body[0].target.elts] if isinstance(body[0].target, ast.Tuple) else []
+    if len(names) != 3:
+        raise TranslatorError("_write_range_aware_raise: loop target changed")
+    lo_v, hi_v, cls_v = names
+    want_if = f"f'if {{{lo_v}}} <= response.status_code < {{{hi_v}}}:'"
+    want_raise = f"f'raise {{{cls_v}}}(response=response, message=\"{{message}}\", status_code=response.status_code)'"
+    if want_if not in loop_src or want_raise not in loop_src:
+        raise TranslatorError(f"_write_range_aware_raise: rendered lines changed: {loop_src}")
+    finals = [ast.unparse(n) for n in ast.walk(body[2]) if isinstance(n, ast.JoinedStr)]
+    m = [f for f in finals if f.startswith("f'raise ") and "response=response" in f and "status_code=response.status_code" in f]
+    if len(m) != 1:
+        raise TranslatorError(f"_write_range_aware_raise: final raise changed: {finals}")
+    fallback_cls = m[0][len("f'raise "):m[0].index("(")]
+    # both `case _` variants must go through it and nothing else raises literally there
+    calls = [n for n in ast.walk(gen) if isinstance(n, ast.Call) and isinstance(n.func, ast.Attribute)
+             and n.func.attr == "_write_range_aware_raise"]
+    if len(calls) != 2:
+        raise TranslatorError("generate_response_handling: expected two calls of _write_range_aware_raise (default, catch-all)")
     lits = [n.value for n in ast.walk(gen) if isinstance(n, ast.Constant) and isinstance(n.value, str)]
-    raises = [s for s in lits if s.startswith("raise ") and "(" in s and "RuntimeError" not in s]
-    want_kw = ("response=response", "status_code=response.status_code")
-    if len(raises) != 2 or not all(all(k in s for k in want_kw) for s in raises):
-        raise TranslatorError(f"generate_response_handling: expected two literal raise lines carrying response and status: {raises}")
-    classes = {s[len("raise "):s.index("(")] for s in raises}
-    if len(classes) != 1:
-        raise TranslatorError(f"default and catch-all raise different classes: {classes}")
-    # raise {error_class_name}(response=response)
+    # ---- declared numeric non-2xx: alias for error codes, inline base class otherwise
     fstr = [n for n in ast.walk(gen) if isinstance(n, ast.JoinedStr) and n.values and isinstance(n.values[0], ast.Constant)
             and n.values[0].value == "raise "]
     if len(fstr) != 1 or ast.unparse(fstr[0]) != "f'raise {error_class_name}(response=response)'":
         raise TranslatorError("generate_response_handling: alias raise line changed")
+    guards = [n for n in ast.walk(gen) if isinstance(n, ast.If) and isinstance(n.test, ast.Call)
+              and isinstance(n.test.func, ast.Name) and n.test.func.id == "is_error_code"]
+    if len(guards) != 1 or not any(isinstance(x, ast.JoinedStr) for b in guards[0].body for x in ast.walk(b)):
+        raise TranslatorError("generate_response_handling: `if is_error_code(code): raise <alias>` not found")
+    other = [s for b in guards[0].orelse for s in (n.value for n in ast.walk(b) if isinstance(n, ast.Constant) and isinstance(n.value, str))
+             if s.startswith("raise ")]
+    tail = [s for b in guards[0].orelse for s in (n.value for n in ast.walk(b) if isinstance(n, ast.Constant) and isinstance(n.value, str))
+            if "status_code=response.status_code" in s]
+    if len(other) != 1 or "response=response" not in other[0] or len(tail) != 1:
+        raise TranslatorError(f"generate_response_handling: inline raise for declared non-error codes changed: {other} {tail}")
+    declared_other = other[0][len("raise "):other[0].index("(")]
+    # ---- default response with content: `if 200 <= response.status_code < 300:` before the strategy return
+    dguard = [s for s in lits if s.startswith("if ") and s.endswith(":")]
+    if len(dguard) != 1:
+        raise TranslatorError(f"generate_response_handling: expected one literal `if` line (the default-case success test): {dguard}")
+    d_lo, d_hi = _range_test(ast.parse(dguard[0] + "\n    pass").body[0].test, "default-case success test")
+    # ---- "2XX" range case
+    rcase = [s for s in lits if s.startswith("case _ if ")]
+    if len(rcase) != 1 or not rcase[0].endswith(":"):
+        raise TranslatorError(f"generate_response_handling: expected one literal range case: {rcase}")
+    r_lo, r_hi = _range_test(ast.parse("if " + rcase[0][len("case _ if "):] + "\n    pass").body[0].test, "range case")
+    wild = {n.comparators[0].value for n in ast.walk(gen) if isinstance(n, ast.Compare) and isinstance(n.ops[0], ast.Eq)
+            and isinstance(n.left, ast.Call) and isinstance(n.left.func, ast.Attribute) and n.left.func.attr == "upper"
+            and isinstance(n.comparators[0], ast.Constant)}
+    if wild != {"2XX"}:
+        raise TranslatorError(f"generate_response_handling: wildcard keys {wild}")
     # the success-prefix tests: .startswith("2")
     pre = {n.args[0].value for n in ast.walk(gen) if isinstance(n, ast.Call) and isinstance(n.func, ast.Attribute)
            and n.func.attr == "startswith" and n.args and isinstance(n.args[0], ast.Constant)}
     if pre != {"2"}:
         raise TranslatorError(f"generate_response_handling: startswith prefixes {pre}")
     return ["(* visit/endpoint/generators/response_handler_generator.py *)",
-            f"Definition handler_fallback_raises : list N := {cstr(classes.pop())}.",
+            f"Definition handler_fallback_raises : list N := {cstr(fallback_cls)}.",
+            _ranges_table("handler_ranges", ranges),
+            f"Definition handler_declared_other_raises : list N := {cstr(declared_other)}.",
+            f"Definition default_success_lo : N := {d_lo}.  Definition default_success_hi : N := {d_hi}.",
+            f"Definition wildcard_lo : N := {r_lo}.  Definition wildcard_hi : N := {r_hi}.",
+            f"Definition s_wildcard_2xx : list N := {cstr('2XX')}.",
             "Definition success_lead_digit : N := 2."]
 
 
